@@ -27,13 +27,13 @@
 (*  MECHANISM  a state machine over processes, pipes, a three-instant      *)
 (*             clock and the parent: Spawn, ReadStdin, Read (Connect),     *)
 (*             Emit (Output), Wake, End (Exit), Epipe, TimeoutKill,        *)
-(*             Collect / Return (Raise), SpawnFail, Tick.  Mech = "code"   *)
+(*             Collect / Return (Raise), SpawnFail, Tick.  mech = "code"   *)
 (*             transcribes what the code does (only the first stage of a   *)
 (*             Pipeline is wrapped in `timeout`, only the last stage is    *)
 (*             waited for and only its status is looked at, the parent     *)
 (*             keeps its copies of the pipe ends, streams inherit stdin,   *)
 (*             decode strictly and look commands up in os.environ);        *)
-(*             Mech = "intended" is the specified behaviour.               *)
+(*             mech = "intended" is the specified behaviour.               *)
 (* TLC checks MECHANISM |= REFERENCE on every case of a family; the        *)
 (* classes of cases on which the transcription is known to leave the       *)
 (* reference (Classes, Admit) are refuted in separate configurations.      *)
@@ -59,8 +59,8 @@ CONSTANTS
     Envs,      \* "none" (not passed) | "given" (explicit dict) | "safe" | "safep" (simple_command: + inherit_env / override_env)
     Bares,     \* BOOLEAN: commands are bare names to be found through PATH
     Flts,      \* "none" | "hit" | "miss": filter registered for the spec (simple_command)
-    Mech,      \* "code" | "intended"
-    Admit      \* classes of known deviations admitted into a Mech = "code" run
+    Mechs,     \* subset of {"code", "intended"}: the mechanisms explored (chosen with the case)
+    Admit      \* classes of known deviations admitted with mech = "code"
 
 -----------------------------------------------------------------------------
 Range(s)    == {s[i] : i \in DOMAIN s}
@@ -83,9 +83,10 @@ OutSeq(o) ==
       [] o = "pp" -> <<"p", "p">> [] o = "pb" -> <<"p", "b">> [] o = "bp" -> <<"b", "p">>
       [] o = "pL" -> <<"p", "L">> [] o = "Lp" -> <<"L", "p">>
 (* a command that does not exist has no behaviour *)
-SaneBeh(b) == b.rc = "nf" => (b.rd = "no" /\ b.out = "" /\ ~b.slow /\ ~b.err)
-Beh1 == {b \in [rd : Rd1, out : Outs, rc : Rcs, slow : Slows, err : Errs] : SaneBeh(b)} \cup {Default1}
-BehK == {b \in [rd : RdK, out : Outs, rc : Rcs, slow : Slows, err : Errs] : SaneBeh(b)} \cup {DefaultK}
+NfBeh == Beh("no", "", "nf", FALSE, FALSE)
+NfSet == IF "nf" \in Rcs THEN {NfBeh} ELSE {}
+Beh1 == [rd : Rd1, out : Outs, rc : Rcs \ {"nf"}, slow : Slows, err : Errs] \cup {Default1} \cup NfSet
+BehK == [rd : RdK, out : Outs, rc : Rcs \ {"nf"}, slow : Slows, err : Errs] \cup {DefaultK} \cup NfSet
 Odd(s) == Cardinality({i \in DOMAIN s : s[i] # (IF i = 1 THEN Default1 ELSE DefaultK)})
 Pipelines ==
     {s \in  {<<a>> : a \in Beh1}
@@ -155,6 +156,10 @@ TimedOut(c) == Tmo(c) /\ \E i \in 1..N(c) : Stages(c)[i].slow
 (* "If the timeout is reached before the command returns, a                 *)
 (* CalledProcessError is raised"                                            *)
 Fail(c)     == TimedOut(c) \/ \E i \in 1..N(c) : DeclRc(c, i) # "0"
+(* a stage in front of one that never reads may die of SIGPIPE before it    *)
+(* fails or is timed out: its failure is possible, not certain              *)
+Shielded(c, i) == \E j \in (i + 1)..N(c) : Stages(c)[j].rd = "no"
+CertainFail(c) == \E i \in 1..N(c) : ~Shielded(c, i) /\ (DeclRc(c, i) # "0" \/ (Tmo(c) /\ Stages(c)[i].slow))
 (* statuses stage i can end with (a reader behind a killed stage may or may *)
 (* not be caught by its own timeout)                                        *)
 PossStat(c, i) == {DeclRc(c, i)} \cup (IF TimedOut(c) THEN {KillStatus(c)} ELSE {})
@@ -180,7 +185,7 @@ RefEnv(c) ==
       [] c.env = "safep" -> EnvView(FALSE, FALSE, TRUE,  TRUE,  "safe")    \* SAFE_ENV + inherit_env + override_env
 (* which of two commands of the same name runs: the one on the PATH of the  *)
 (* environment the command is given                                         *)
-RefWhich(c) == IF c.env = "given" THEN "env" ELSE "os"
+RefWhich(c) == IF ~c.bare THEN "abs" ELSE IF c.env = "given" THEN "env" ELSE "os"
 
 -----------------------------------------------------------------------------
 (* classes of cases on which the transcription of the code leaves the       *)
@@ -202,6 +207,7 @@ Classes(c) ==
 (* MECHANISM *)
 VARIABLES
     c,        \* the case
+    mech,     \* "code": transcription of what the code does | "intended": the specified behaviour
     pc,       \* parent: "spawn" | "done"
     nsp,      \* stages spawned so far
     sp,       \* per stage: "unborn" | "read" | "emit" | "sleep" | "end" | "dead"
@@ -216,7 +222,7 @@ VARIABLES
     view,     \* per stage: argv / environment / command lookup as the process sees them
     reaped,   \* stages the parent has waited for
     left      \* at return: stages still running / not waited for
-vars == <<c, pc, nsp, sp, kx, stt, pipe, got, clock, res, fin, sawc, view, reaped, left>>
+vars == <<c, mech, pc, nsp, sp, kx, stt, pipe, got, clock, res, fin, sawc, view, reaped, left>>
 
 S      == Stages(c)
 NN     == N(c)
@@ -227,23 +233,24 @@ HasL(q)    == \E k \in DOMAIN q : q[k].k = "L"
 (* a line longer than the pipe's buffer: its writer does nothing else until it has been read *)
 Blocked(i) == i < NN /\ HasL(pipe[i])
 (* the `timeout` wrapper: Pipeline puts it before cmds[0] only; streams.stream before every command *)
-UnderTimeout(i) == Tmo(c) /\ (Mech = "intended" \/ StreamApi(c.api) \/ i = 1)
+UnderTimeout(i) == Tmo(c) /\ (mech = "intended" \/ StreamApi(c.api) \/ i = 1)
 (* the parent's own copy of the read end of pipe i: Pipeline keeps it as long as stage i lives     *)
 (* (the Popen object of an unfinished earlier stage is parked in subprocess._active with its        *)
 (* stdout), connect until it returns; the specified behaviour closes it once the reader exists      *)
-ParentHolds(i) == Mech = "code" /\ (IF StreamApi(c.api) THEN pc # "done" ELSE sp[i] # "dead")
-ReadersOpen(i) == sp[i + 1] # "dead" \/ ParentHolds(i)
+ParentHolds(i) == mech = "code" /\ (IF StreamApi(c.api) THEN pc # "done" ELSE sp[i] # "dead")
+ReadersOpen(i) == IF i < 3 THEN (sp[i + 1] # "dead" \/ ParentHolds(i)) ELSE TRUE
 (* stdin of the first stage: Pipeline gives DEVNULL; streams.stream passes stdin=None = inherited  *)
-Stdin1 == IF Mech = "code" /\ StreamApi(c.api) THEN "caller" ELSE "devnull"
+Stdin1 == IF mech = "code" /\ StreamApi(c.api) THEN "caller" ELSE "devnull"
 
 (* static views *)
 NoView    == [argv |-> "none", env |-> EnvView(FALSE, FALSE, FALSE, FALSE, "none"), which |-> "none"]
 MechEnv   == RefEnv(c)
-MechWhich == IF Mech = "code" /\ StreamApi(c.api) THEN "os" ELSE RefWhich(c)    \* streams: which(command[0]) without env
+MechWhich == IF mech = "code" /\ StreamApi(c.api) /\ c.bare THEN "os" ELSE RefWhich(c)    \* streams: which(command[0]) without env
 MechArgv  == "exact"                                                            \* argv lists, shlex.split, no shell
 
 Init ==
-    /\ c \in {x \in Cases : Mech = "code" => Classes(x) \subseteq Admit}
+    /\ mech \in Mechs
+    /\ c \in {x \in Cases : mech = "code" => Classes(x) \subseteq Admit}
     /\ pc = "spawn" /\ nsp = 0
     /\ sp = [i \in 1..3 |-> "unborn"] /\ kx = [i \in 1..3 |-> 0] /\ stt = [i \in 1..3 |-> "none"]
     /\ pipe = [i \in 1..3 |-> <<>>] /\ got = <<>> /\ clock = 0 /\ res = NoRes
@@ -251,21 +258,25 @@ Init ==
     /\ view = [i \in 1..3 |-> NoView] /\ reaped = {} /\ left = [running |-> {}, unreaped |-> {}]
 
 (* ---- enabling conditions (needed explicitly: time passes only when nothing else can happen) ---- *)
-InputReady(i) == i = 1 \/ pipe[i - 1] # <<>> \/ sp[i - 1] = "dead"
+InputReady(i) == IF i = 1 THEN TRUE ELSE (pipe[i - 1] # <<>> \/ sp[i - 1] = "dead")
 ReadEn(i)  == sp[i] = "read" /\ ~Blocked(i) /\ InputReady(i)
 EmitEn(i)  == sp[i] = "emit" /\ ~Blocked(i)
 WakeEn(i)  == sp[i] = "sleep" /\ clock >= 2
 EndEn(i)   == sp[i] = "end" /\ ~Blocked(i)
 KillEn(i)  == Alive(i) /\ clock >= 1 /\ UnderTimeout(i)
 WantsToWrite(i) == Blocked(i) \/ (sp[i] = "emit" /\ kx[i] < Len(Own(c, i)))
-                   \/ (sp[i] = "read" /\ S[i].rd \in {"pass", "filter"} /\ i > 1 /\ pipe[i - 1] # <<>>)
+                   \/ (IF i > 1 THEN sp[i] = "read" /\ S[i].rd \in {"pass", "filter"} /\ pipe[i - 1] # <<>> ELSE FALSE)
 EpipeEn(i) == Alive(i) /\ i < NN /\ ~ReadersOpen(i) /\ WantsToWrite(i)
 SpawnEn    == pc = "spawn" /\ nsp < NN
 AllDead    == \A i \in 1..NN : sp[i] = "dead"
 (* Pipeline: communicate() / wait() on the last process only; connect: every stream() waits for its process *)
 ReturnEn   == pc = "spawn" /\ nsp = NN /\
-              (IF Mech = "code" /\ PipeApi(c.api) THEN sp[NN] = "dead" ELSE AllDead)
-Busy == SpawnEn \/ ReturnEn \/ \E i \in 1..NN : ReadEn(i) \/ EmitEn(i) \/ WakeEn(i) \/ EndEn(i) \/ KillEn(i) \/ EpipeEn(i)
+              (IF mech = "code" /\ PipeApi(c.api) THEN sp[NN] = "dead" ELSE AllDead)
+(* connect in the code: a command that does not exist is noticed after its predecessors were started, *)
+(* and the exception has to pass their `finally: output.wait()`                                      *)
+FailWaits  == mech = "code" /\ StreamApi(c.api) /\ nsp > 0 /\ ~ProvApi(c.api)
+SpawnBusy  == SpawnEn /\ (S[nsp + 1].rc = "nf" /\ FailWaits => \A i \in 1..nsp : sp[i] = "dead")
+Busy == SpawnBusy \/ ReturnEn \/ \E i \in 1..NN : ReadEn(i) \/ EmitEn(i) \/ WakeEn(i) \/ EndEn(i) \/ KillEn(i) \/ EpipeEn(i)
 
 (* ---- the parent ---- *)
 Deliver(i, t) ==       \* stage i writes line t
@@ -278,7 +289,7 @@ Spawn ==
        /\ nsp' = i
        /\ sp' = [sp EXCEPT ![i] = IF S[i].rd = "no" THEN "emit" ELSE "read"]
        /\ view' = [view EXCEPT ![i] = [argv |-> MechArgv, env |-> MechEnv, which |-> MechWhich]]
-    /\ UNCHANGED <<c, pc, kx, stt, pipe, got, clock, res, fin, sawc, reaped, left>>
+    /\ UNCHANGED <<c, mech, pc, kx, stt, pipe, got, clock, res, fin, sawc, reaped, left>>
 
 LeftNow(rp) == [running |-> {i \in 1..NN : Alive(i)}, unreaped |-> {i \in 1..NN : sp[i] # "unborn"} \ rp]
 
@@ -286,12 +297,9 @@ LeftNow(rp) == [running |-> {i \in 1..NN : Alive(i)}, unreaped |-> {i \in 1..NN 
 (* Popen and the enclosing stream()s wait for their processes (connect), CommandOutputProvider        *)
 (* refuses at construction ("Command not found").  The code leaves the stages it has started alone.   *)
 SpawnFail ==
-    /\ SpawnEn /\ S[nsp + 1].rc = "nf"
-    /\ IF Mech = "code" /\ StreamApi(c.api) /\ nsp > 0 /\ ~ProvApi(c.api)
-         THEN FALSE            \* handled by SpawnFailWait below
-         ELSE TRUE
+    /\ SpawnEn /\ S[nsp + 1].rc = "nf" /\ ~FailWaits
     /\ LET kind == IF ProvApi(c.api) THEN "content" ELSE "oserror" IN
-       IF Mech = "code"
+       IF mech = "code"
          THEN /\ res' = Res(kind, "none", <<>>, "none")
               /\ left' = LeftNow({})
               /\ UNCHANGED <<sp, stt, reaped>>
@@ -301,14 +309,14 @@ SpawnFail ==
               /\ reaped' = 1..nsp
               /\ left' = [running |-> {}, unreaped |-> {}]
     /\ pc' = "done"
-    /\ UNCHANGED <<c, nsp, kx, pipe, got, clock, fin, sawc, view>>
+    /\ UNCHANGED <<c, mech, nsp, kx, pipe, got, clock, fin, sawc, view>>
 (* connect in the code: the exception travels through `with stream(cmds[idx])`, whose finally waits *)
 SpawnFailWait ==
-    /\ SpawnEn /\ S[nsp + 1].rc = "nf" /\ Mech = "code" /\ StreamApi(c.api) /\ nsp > 0 /\ ~ProvApi(c.api)
+    /\ SpawnEn /\ S[nsp + 1].rc = "nf" /\ FailWaits
     /\ \A i \in 1..nsp : sp[i] = "dead"
     /\ res' = Res("oserror", "none", <<>>, "none") /\ reaped' = 1..nsp /\ left' = [running |-> {}, unreaped |-> {}]
     /\ pc' = "done"
-    /\ UNCHANGED <<c, nsp, sp, kx, stt, pipe, got, clock, fin, sawc, view>>
+    /\ UNCHANGED <<c, mech, nsp, sp, kx, stt, pipe, got, clock, fin, sawc, view>>
 
 (* what Pipeline.__call__ / write / call / shell_out make of the last stage's status *)
 CodeResult ==
@@ -326,15 +334,15 @@ HasBin(q) == \E k \in DOMAIN q : q[k].k = "b"
 
 Return ==
     /\ ReturnEn
-    /\ LET rp == IF Mech = "code" /\ PipeApi(c.api) THEN {NN} ELSE 1..NN IN
+    /\ LET rp == IF mech = "code" /\ PipeApi(c.api) THEN {NN} ELSE 1..NN IN
        /\ reaped' = rp
        /\ left' = LeftNow(rp)
     /\ res' = IF StreamApi(c.api)
-                THEN (IF Mech = "code" /\ HasBin(got) THEN Res("decode", "none", <<>>, "none")   \* universal_newlines: strict UTF-8
+                THEN (IF mech = "code" /\ HasBin(got) THEN Res("decode", "none", <<>>, "none")   \* universal_newlines: strict UTF-8
                       ELSE Res("ret", "none", got, "none"))                                      \* exit statuses are not looked at
-                ELSE IF Mech = "code" THEN CodeResult ELSE IntendedResult
+                ELSE IF mech = "code" THEN CodeResult ELSE IntendedResult
     /\ pc' = "done"
-    /\ UNCHANGED <<c, nsp, sp, kx, stt, pipe, got, clock, fin, sawc, view>>
+    /\ UNCHANGED <<c, mech, nsp, sp, kx, stt, pipe, got, clock, fin, sawc, view>>
 
 (* ---- a stage ---- *)
 ReadStdin ==       \* the first stage reads its standard input to the end
@@ -342,7 +350,7 @@ ReadStdin ==       \* the first stage reads its standard input to the end
     /\ sawc' = [sawc EXCEPT ![1] = Stdin1 = "caller"]
     /\ IF Stdin1 = "caller" /\ S[1].rd = "pass" THEN Deliver(1, CallerTok) ELSE UNCHANGED <<pipe, got>>
     /\ sp' = [sp EXCEPT ![1] = "emit"]
-    /\ UNCHANGED <<c, pc, nsp, kx, stt, clock, res, fin, view, reaped, left>>
+    /\ UNCHANGED <<c, mech, pc, nsp, kx, stt, clock, res, fin, view, reaped, left>>
 
 Read(i) ==         \* a later stage takes the next line from the pipe that connects it to its predecessor, or sees EOF
     /\ i > 1 /\ ReadEn(i)
@@ -355,43 +363,49 @@ Read(i) ==         \* a later stage takes the next line from the pipe that conne
                  ELSE pipe' = [pipe EXCEPT ![i - 1] = Tail(@)] /\ UNCHANGED got
               /\ UNCHANGED sp
          ELSE sp' = [sp EXCEPT ![i] = "emit"] /\ UNCHANGED <<pipe, got>>
-    /\ UNCHANGED <<c, pc, nsp, kx, stt, clock, res, fin, sawc, view, reaped, left>>
+    /\ UNCHANGED <<c, mech, pc, nsp, kx, stt, clock, res, fin, sawc, view, reaped, left>>
 
 Emit(i) ==         \* Output(stage, line): the next own line, or on to sleeping / ending
     /\ EmitEn(i) /\ (i = NN \/ ReadersOpen(i) \/ kx[i] = Len(Own(c, i)))
     /\ IF kx[i] < Len(Own(c, i))
          THEN Deliver(i, Own(c, i)[kx[i] + 1]) /\ kx' = [kx EXCEPT ![i] = @ + 1] /\ UNCHANGED sp
          ELSE sp' = [sp EXCEPT ![i] = IF S[i].slow THEN "sleep" ELSE "end"] /\ UNCHANGED <<pipe, got, kx>>
-    /\ UNCHANGED <<c, pc, nsp, stt, clock, res, fin, sawc, view, reaped, left>>
+    /\ UNCHANGED <<c, mech, pc, nsp, stt, clock, res, fin, sawc, view, reaped, left>>
 
 Wake(i) ==
     /\ WakeEn(i) /\ sp' = [sp EXCEPT ![i] = "end"]
-    /\ UNCHANGED <<c, pc, nsp, kx, stt, pipe, got, clock, res, fin, sawc, view, reaped, left>>
+    /\ UNCHANGED <<c, mech, pc, nsp, kx, stt, pipe, got, clock, res, fin, sawc, view, reaped, left>>
 
 GrepStatus(i) == IF \E k \in DOMAIN got : TRUE THEN "0" ELSE "1"       \* the grep stage is always the last one
 End(i) ==          \* Exit(stage, status)
     /\ EndEn(i)
     /\ sp' = [sp EXCEPT ![i] = "dead"] /\ fin' = [fin EXCEPT ![i] = TRUE]
     /\ stt' = [stt EXCEPT ![i] = IF S[i].rc = "grep" THEN GrepStatus(i) ELSE S[i].rc]
-    /\ UNCHANGED <<c, pc, nsp, kx, pipe, got, clock, res, sawc, view, reaped, left>>
+    /\ UNCHANGED <<c, mech, pc, nsp, kx, pipe, got, clock, res, sawc, view, reaped, left>>
 
 Epipe(i) ==        \* nobody can read what the stage writes any more: SIGPIPE
     /\ EpipeEn(i)
     /\ sp' = [sp EXCEPT ![i] = "dead"] /\ stt' = [stt EXCEPT ![i] = "pipe"]
     /\ pipe' = [pipe EXCEPT ![i] = <<>>]
-    /\ UNCHANGED <<c, pc, nsp, kx, got, clock, res, fin, sawc, view, reaped, left>>
+    /\ UNCHANGED <<c, mech, pc, nsp, kx, got, clock, res, fin, sawc, view, reaped, left>>
 
 TimeoutKill(i) ==
     /\ KillEn(i)
     /\ sp' = [sp EXCEPT ![i] = "dead"] /\ stt' = [stt EXCEPT ![i] = KillStatus(c)]
     /\ pipe' = [pipe EXCEPT ![i] = SelectSeq(@, LAMBDA t : t.k # "L")]      \* an unfinished long write is cut
-    /\ UNCHANGED <<c, pc, nsp, kx, got, clock, res, fin, sawc, view, reaped, left>>
+    /\ UNCHANGED <<c, mech, pc, nsp, kx, got, clock, res, fin, sawc, view, reaped, left>>
 
 Tick == /\ ~Busy /\ clock < 3 /\ clock' = clock + 1
-        /\ UNCHANGED <<c, pc, nsp, sp, kx, stt, pipe, got, res, fin, sawc, view, reaped, left>>
+        /\ UNCHANGED <<c, mech, pc, nsp, sp, kx, stt, pipe, got, res, fin, sawc, view, reaped, left>>
 
+StageRead  == \E i \in 1..3 : i <= NN /\ Read(i)
+StageEmit  == \E i \in 1..3 : i <= NN /\ Emit(i)
+StageWake  == \E i \in 1..3 : i <= NN /\ Wake(i)
+StageEnd   == \E i \in 1..3 : i <= NN /\ End(i)
+StageEpipe == \E i \in 1..3 : i <= NN /\ Epipe(i)
+StageKill  == \E i \in 1..3 : i <= NN /\ TimeoutKill(i)
 Next == Spawn \/ SpawnFail \/ SpawnFailWait \/ Return \/ ReadStdin \/ Tick
-        \/ \E i \in 1..3 : i <= NN /\ (Read(i) \/ Emit(i) \/ Wake(i) \/ End(i) \/ Epipe(i) \/ TimeoutKill(i))
+        \/ StageRead \/ StageEmit \/ StageWake \/ StageEnd \/ StageEpipe \/ StageKill
 Spec == Init /\ [][Next]_vars
 
 -----------------------------------------------------------------------------
@@ -412,7 +426,7 @@ RcPolicy ==
     (Returned /\ ~Unstartable(c) /\ PipeApi(c.api)) =>
         /\ res.kind \in {"ret", "cpe"}
         /\ c.keep => (res.kind = "ret" /\ res.rc \in AllowedKeepRc(c))
-        /\ ~c.keep => ((res.kind = "cpe") <=> Fail(c))
+        /\ ~c.keep => ((CertainFail(c) => res.kind = "cpe") /\ (res.kind = "cpe" => Fail(c)))
 (* a command that does not exist is an error, never a result *)
 NotFoundIsAnError ==
     (Returned /\ Unstartable(c)) => (res.kind \notin {"ret", "none"} /\ (ProvApi(c.api) => res.kind = "content"))
@@ -434,6 +448,8 @@ Terminates == clock = 3 => Returned
 NoneRunningAtReturn == Returned => left.running = {}
 NothingStuck        == clock = 3 => \A i \in 1..NN : ~Alive(i)
 AllReaped           == Returned => left.unreaped = {}
+(* the transcription of the code never waits for the earlier stages of a Pipeline (class "unwaited") *)
+AllReapedButKnown   == (mech = "code" /\ PipeApi(c.api) /\ "unwaited" \notin Admit) \/ AllReaped
 (* a stage that reads its standard input gets EOF or its predecessor's output *)
 NeverReadsCallerStdin == \A i \in 1..3 : ~sawc[i]
 (* argv as given, the environment as documented, the command from that environment's PATH *)
